@@ -164,12 +164,18 @@ def check_property(prop, cs, args, seed, lock, write_lock=False):
         return 3
     # the extra (non-VC) parts of a property: finite tables, bounded stand-ins
     jobs = [(c.name, mname, REPO, module_of(c)) for c in mine for mname in c.modes]
-    with mp.Pool(min(NPROC, max(1, len(jobs)))) as pool:
-        gens = pool.map(engine.safe_generate, jobs, chunksize=1)
+    if jobs:
+        with mp.Pool(min(NPROC, max(1, len(jobs)))) as pool:
+            gens = pool.map(engine.safe_generate, jobs, chunksize=1)
+    else:
+        gens = []
     structural = [g for g in gens if "error" in g]
     obligations = [ob for g in gens if "error" not in g for ob in g["obligations"]]
-    with mp.Pool(NPROC) as pool:
-        results = pool.map(engine.safe_discharge, obligations, chunksize=1)
+    if obligations:
+        with mp.Pool(NPROC) as pool:
+            results = pool.map(engine.safe_discharge, obligations, chunksize=1)
+    else:
+        results = []
     by_name = {ob["name"]: ob for ob in obligations}
     for r in results:
         by_name[r["name"]].update(r)
@@ -298,6 +304,8 @@ def check_property(prop, cs, args, seed, lock, write_lock=False):
         os.makedirs(os.path.join(HERE, "replay", prop), exist_ok=True)
         path = os.path.join(HERE, "replay", prop, f["name"].replace("/", "_")[:150] + ".json")
         found = f.get("input") is not None
+        if found:
+            f = dict(f, failing_input=f.get("input"))
         if not found:
             # a finite-table / introspection obligation failed: look for a failing input with the property's native oracle
             carrier = [c for c in mine if c.replay and getattr(c, "extra_checks", None)] + [c for c in mine if c.replay]
@@ -358,8 +366,14 @@ def check_property(prop, cs, args, seed, lock, write_lock=False):
         "known_findings_seen": known_seen,
         "messages": messages,
     }
+    nb_cases = sum(int(b.get("cases") or 0) for b in extra["bounded"])
     if not (obligations and len(discharged) >= 1):
         ev["level"] = "other"
+        ev["coverage"]["explanation"] = ("no function of this property is under a discharged contract in this snapshot: the property is decided by the bounded stand-ins listed "
+                                         "under 'bounded_stand_ins' (the real code run on exact symbolic / rational inputs, stated bounds); bounded, never counted as proved")
+    ev["coverage"]["evaluations"] = len(obligations) + nb_cases + sum(int(t.get("rows") or 0) for t in extra["tables"])
+    ev["coverage"]["distinct_nontrivial"] = len(groups) + nb_cases
+    ev["coverage"]["rule"] = "obligation groups (distinct cut point x clause x contract mode) + bounded stand-in cases (each a distinct input shape / parameter point)"
     os.makedirs(os.path.dirname(evidence_path), exist_ok=True)
     with open(evidence_path, "w") as f:
         json.dump(ev, f, indent=1, default=str)
